@@ -176,6 +176,17 @@ func illTypedDefault(x *sg.Schema) bool {
 	if !x.HasDefault {
 		return false
 	}
+	if x.Ref != "" && x.Target != nil {
+		// next to a reference a default is well-typed when the definition is a plain scalar, a one-kind enum or an
+		// array of plain scalars (the generator emits a literal of the named type)
+		tgt := x.Target
+		if tgt.Ref != "" || len(tgt.AllOf) > 0 || len(tgt.AnyOf) > 0 || tgt.Ext != nil || tgt.HasDefault {
+			return true
+		}
+		c := tgt.Clone()
+		c.HasDefault, c.Default = true, x.Default
+		return illTypedDefault(c)
+	}
 	if x.Ref != "" || len(x.AllOf) > 0 || len(x.AnyOf) > 0 || x.Ext != nil {
 		return true
 	}
@@ -304,8 +315,35 @@ func collidingDefRefs(root *sg.Schema) [][2]string {
 			if d.Name == e.Name || identKey(d.Name) != identKey(e.Name) {
 				continue
 			}
+			// only the definition that holds the plain name (the first of its class in the generator's sorted
+			// order) is affected: suffixed names are never handed out twice
+			first := true
+			for _, o := range root.Defs {
+				if identKey(o.Name) == identKey(d.Name) && o.Name < d.Name {
+					first = false
+				}
+			}
+			if !first {
+				continue
+			}
 			refs := false
-			d.S.Walk(func(x *sg.Schema) { refs = refs || (x.Ref != "" && x.Target == e.S) })
+			seen := map[*sg.Schema]bool{}
+			var visit func(x *sg.Schema)
+			visit = func(x *sg.Schema) {
+				if x == nil || seen[x] {
+					return
+				}
+				seen[x] = true
+				x.Walk(func(y *sg.Schema) {
+					if y.Ref != "" && y.Target != nil {
+						if y.Target == e.S {
+							refs = true
+						}
+						visit(y.Target)
+					}
+				})
+			}
+			visit(d.S)
 			if refs {
 				out = append(out, [2]string{d.Name, e.Name})
 			}
@@ -543,6 +581,12 @@ func c01(ctx *Ctx) (*Outcome, error) {
 		}
 		g := sg.NewGen(r, o)
 		root := g.Root()
+		if i%25 == 8 {
+			// three names that normalise to one identifier, also with the second referring to the third
+			tc := collisionTripleCase(i/25*2, r)
+			cases = append(cases, &c01Case{root: tc.Root, args: RandArgs(r, tc.Root), tag: "clean"})
+			continue
+		}
 		if i%25 == 7 {
 			// definitions / properties / root type named after identifiers of the generated code
 			ic := internalNameCase(i/25, r)
